@@ -16,7 +16,7 @@ from .common import Check
 from .stubs import install_uniform, ptr
 from pyxsym.sym import s_and, s_or, s_not, s_log, s_sqrt, s_cos, sym_pow, ite, is_sym, PathCut, Sym
 
-REPLAY = ("replay_drivers.ssa", "replay")
+REPLAY = ("replay_drivers.C10", "replay")
 FACETS = ["step", "conservation", "invariant", "absorbing", "loop", "init"]
 PI_LIT = Fraction("3.141592653589793238462643383279502884")
 
@@ -130,9 +130,12 @@ def check(tier):
                        dict(cases=[(S, R, T, ci, C, start)], facets=FACETS))
     for w in ("normal", "gamma1", "gamma2", "delays"):
         ck.add("sampler/" + w, "harness.C10", "sampler_job", dict(cases=[(w,)]))
+    # the queue's own insertion rule (slot = nearest grid time, clamped to the horizon): C20's add obligations
+    adds = [(R, C, s_, r) for R in (1, 2) for C in (2, 3) for s_ in range(C) for r in range(R)]
+    ck.add("queue-add", "harness.C20", "add_job", dict(cases=adds))
     from . import C05
     for cse in C05.cases("quick")[:3]:
-        ck.add("ssa-init/S%dR%dT%d/ci%d" % cse, "harness.C05", "step_job", dict(cases=[cse]))
+        ck.add("ssa-init/S%dR%dT%d/ci%d" % cse, "harness.C05", "step_job", dict(cases=[cse], facets=["init", "feasible"]))
     ck.bounds = dict(species="<= 3", reactions="<= 2", time_points="<= 4", queue_slots="2..4, every ring position",
                      gamma_rejection_loop="first and second iteration (later iterations cut, stated)",
                      loops="one iteration from an arbitrary pre-state incl. arbitrary queue contents (inductive)")
@@ -162,6 +165,7 @@ def check(tier):
             ck.add_mutant(name, m, "delay", "harness.steps", "delay_step", dict(cases=[(2, 2, 2, 0, 2, 0), (2, 2, 2, 1, 2, 1)], facets=FACETS))
         else:
             ck.add_mutant(name, m, which, "harness.C10", "sampler_job", dict(cases=[(which,)]))
+    ck.oracle_selftest = [{'kind': 'delay'}, {'kind': 'delay_volume'}]
     ck.validate = ['delay_ssa', 'delay_volume_ssa', 'rng']
     ck.run()
     return ck.finish(replay=REPLAY)
